@@ -66,7 +66,7 @@ def gen_case(r, allow_bad=True):
     nrank = rank - 1 if stack else rank
     nshape = shape[1:] if stack else shape
     rec = {"dtype": r.choice(gen.DTYPES), "shape": shape, "seed": r.randrange(10**6), "units": r.choice(UNITS),
-           "layout": r.choice(["C", "C", "F", "strided", "neg"])}
+           "layout": r.choice(["C", "C", "F", "strided", "neg", "readonly"])}
     nd = r.choice([None, nrank, nrank, max(nrank - 1, 0), nrank + 1, 0])
     rec["dims"] = None if nd is None else [gen_dim(r, nshape[i] if i < nrank else 3) for i in range(nd)]
     for key, pool in (("names", NAMES), ("dunits", UNITS)):
@@ -129,6 +129,9 @@ def build_data(rec):
         a = big[::2]
     elif lay == "neg" and a.ndim >= 1:
         a = np.ascontiguousarray(a[::-1])[::-1]
+    elif lay == "readonly":
+        a = np.array(a)
+        a.setflags(write=False)          # the caller's array may not be written to (e.g. a memory map opened read-only)
     return a
 
 
